@@ -21,11 +21,14 @@ def encodeShape : Shape → Json
 def decodeObs (j : Json) : R Spec.C08.Obs := do
   pure { ofType := ← natList (← field j "of_type"), get := ← decodeShape (← field j "get"),
          iterAfterGet := ← natList (← field j "iter_after_get"),
-         iterAfterRemove := ← natList (← field j "iter_after_remove") }
+         lenAfterGet := ← natF j "len_after_get",
+         iterAfterRemove := ← natList (← field j "iter_after_remove"),
+         lenAfterRemove := ← natF j "len_after_remove" }
 
 def encodeObs (o : Spec.C08.Obs) : Json :=
   Json.mkObj [("of_type", jNatList o.ofType), ("get", encodeShape o.get),
-    ("iter_after_get", jNatList o.iterAfterGet), ("iter_after_remove", jNatList o.iterAfterRemove)]
+    ("iter_after_get", jNatList o.iterAfterGet), ("len_after_get", toJson o.lenAfterGet),
+    ("iter_after_remove", jNatList o.iterAfterRemove), ("len_after_remove", toJson o.lenAfterRemove)]
 
 def optInt (j : Json) : R (Option Int) :=
   match j with
